@@ -102,12 +102,35 @@ class LedgerMonitor:
     def __init__(self):
         self.problem = None
         self.calls = 0
+        self.pre = None
+        self.full_hits = 0
+
+    def before_api(self, sim, ep, name, args, kw):
+        if name == "datagrams_to_send":
+            c = ep.conn
+            known = {id(p) for sp in c._loss.spaces for p in sp.sent_packets.values()}
+            self.pre = (c._loss.congestion_window, c._loss.bytes_in_flight, bool(c._probe_pending), known)
 
     def after_api(self, sim, ep, name, args, kw, res):
         if self.problem:
             return
         self.calls += 1
         loss = ep.conn._loss
+        if name == "datagrams_to_send" and self.pre is not None and ep.conn._state.name in ("FIRSTFLIGHT", "CONNECTED"):
+            # flight budget (last clause of the property): apart from ACK-only packets and
+            # one probe datagram per timeout, no more in-flight bytes than the window allows
+            cwnd, bif, probe, known = self.pre
+            new = sum(p.sent_bytes for sp in loss.spaces for p in sp.sent_packets.values()
+                      if p.in_flight and id(p) not in known)
+            allowed = max(cwnd - bif, 0)
+            if probe:
+                allowed = max(allowed, ep.conn._max_datagram_size)
+            if cwnd - bif < ep.conn._max_datagram_size:
+                self.full_hits += 1
+            if new > allowed:
+                self.problem = (f"{ep.name}: one datagrams_to_send() put {new} in-flight bytes on the wire with "
+                                f"window {cwnd}, {bif} already in flight, probe_pending={probe} (allowed {allowed})")
+            self.pre = None
         tracked = sum(p.sent_bytes for sp in loss.spaces for p in sp.sent_packets.values() if p.in_flight)
         if loss.bytes_in_flight != tracked or loss.bytes_in_flight < 0:
             self.problem = (f"{ep.name}: bytes_in_flight={loss.bytes_in_flight} but tracked in-flight packets total "
@@ -127,7 +150,7 @@ def connection_ledger(ctx, r, n):
     for k in range(n):
         seed = r.randrange(1 << 30)
         mon = LedgerMonitor()
-        variant = ["plain", "retry", "vn"][k % 3]
+        variant = ["plain", "retry", "vn", "full"][k % 4]
         copts = {"congestion_control_algorithm": r.choice(["reno", "cubic"])}
         if variant == "vn":
             copts["supported_versions"] = [0x6B3343CF, 1]   # v2 first, server answers VN offering v1
@@ -150,6 +173,29 @@ def connection_ledger(ctx, r, n):
                 s.api(s.client, "receive_datagram", pkt, simmod.SERVER_ADDR, now=s.now)
                 s.transmit(s.client)
                 s.pending.clear()
+            elif variant == "full":
+                # window filled during a blackout, then application pings / more writes / timers
+                s.fair_phase(max_steps=60, done=lambda: c._handshake_confirmed)
+                ep = r.choice(s.endpoints)
+                sid = 0 if ep.is_client else 1
+                s.api(ep, "send_stream_data", sid, bytes(r.choice([20000, 40000])), end_stream=False)
+                for _ in range(60):        # the pacer releases the window gradually
+                    s.transmit(ep)
+                    s.pending.clear()
+                    s.now += 0.002
+                    lo = ep.conn._loss
+                    if lo.congestion_window - lo.bytes_in_flight < ep.conn._max_datagram_size:
+                        break
+                for i in range(r.randrange(3, 10)):
+                    x = r.random()
+                    if x < 0.4:
+                        s.api(ep, "send_ping", 100 + i)
+                    elif x < 0.7:
+                        s.api(ep, "send_stream_data", sid, bytes(r.randrange(1, 3000)), end_stream=False)
+                    else:
+                        s.fire_timer(ep)
+                    s.transmit(ep)
+                    s.pending.clear()
             else:
                 s.fair_phase(max_steps=60, done=lambda: c._handshake_confirmed)
                 for i in range(r.randrange(5, 60)):
@@ -202,7 +248,7 @@ def main(tier):
         ctx.sample({algo: cases[0][:7]})
         cases = [gen_case(r, algo, r.choice([10, 40]), wellformed=False) for _ in range(n // 3)]
         core.run_cases(ctx, f"recovery-{algo}-malformed", cases, RecoveryImpl, None, nontrivial)
-    connection_ledger(ctx, r, 24 if not thorough else 600)
+    connection_ledger(ctx, r, 32 if not thorough else 800)
     ctx.cov["rule"] = (
         "random interleavings of send / ack(arbitrary range sets incl. never-sent and already-acked numbers) / "
         "loss-detection timeout / space discard at arbitrary times for Reno and CUBIC (well-formed: fresh packet "
